@@ -384,11 +384,17 @@ class P(Prop):
 
             mc = methods.parse_method_toml(method_name=case["method"], use_pseudo_genes=False)
             comp_calls = []
+            surv_calls = []
             orig_comp = mc.picked_strategy.do_competition
 
             def comp_wrapper(protein_groups, infos, score_type):
                 comp_calls.append([list(g) for g in protein_groups])
-                return orig_comp(protein_groups, infos, score_type)
+                ret = orig_comp(protein_groups, infos, score_type)
+                try:
+                    surv_calls.append([[list(g), float(x)] for g, x in zip(ret[0], ret[2])])
+                except Exception:
+                    surv_calls.append(None)
+                return ret
 
             mc.picked_strategy.do_competition = comp_wrapper
             thr = float(unrat(case["threshold"]))
@@ -406,6 +412,7 @@ class P(Prop):
             out["second_pass"] = comp_calls[1] if len(comp_calls) > 1 else None
             out["final_ids"] = [r.proteinIds for r in res]
             out["pgT"] = mc.picked_strategy.short_description() == "pgT"
+            rec["first_survivors"] = surv_calls[0] if surv_calls else None
         else:
             g = grouping.RescuedSubsetGrouping()
             if "old" in case:
@@ -436,6 +443,7 @@ class P(Prop):
             "cuts": rec["cuts"],
             "all_nodes": rec.get("all_nodes"),
             "first_results": rec.get("first_results"),
+            "first_survivors": rec.get("first_survivors"),
         }
         return out
 
@@ -528,6 +536,14 @@ class P(Prop):
 
             thr = float(unrat(case["threshold"]))
             rows = r["first_results"]
+            # "the PEP equivalent of the worst-scoring group": the score of a first-pass row is the score its group
+            # left the first competition with (not a rounded or otherwise re-derived value)
+            surv = r.get("first_survivors")
+            if surv:
+                for ids, s, _ in rows:
+                    ms = [x for g, x in surv if all(p in g for p in ids.split(";"))]
+                    if ms and s not in ms:
+                        return "first-pass row %r carries score %r but its group left the competition with score %r: the rescue cutoff 10^-score is not its PEP equivalent" % (ids, s, ms[0])
             acc = [s for _, s, q in rows if q < thr] or [s for _, s, q in rows]
             want = float(np.power(10, -min(acc)))
             if want != float(cutoff):
